@@ -46,8 +46,9 @@ Definition tgt (L : list (nat * list nat)) (l : nat) : nat := hd 0 (lab_get L l)
 
 Definition is_jeq (o : option pinsn) : bool := match o with Some (PJeq _ _ _) => true | _ => false end.
 
+(* the nearest candidate of the label lies ahead, within reach of a conditional jump *)
 Definition ok_side (L : list (nat * list nat)) (idx l : nat) : Prop :=
-  lab_get L l = [tgt L l] /\ idx < tgt L l /\ tgt L l <= idx + 256.
+  lab_get L l <> [] /\ idx < tgt L l /\ tgt L l <= idx + 256.
 
 Definition ok_jump (L : list (nat * list nat)) (ins : list pinsn) (j : jmp) : Prop :=
   is_jeq (nth_error ins (j_index j)) = true /\ ok_side L (j_index j) (j_true j) /\ ok_side L (j_index j) (j_false j) /\
@@ -71,10 +72,11 @@ Fixpoint apply_jumps (L : list (nat * list nat)) (js : list jmp) (ins : list pin
 Lemma resolve_label_short p cur l : ok_side (pr_labels p) (j_index cur) l ->
   resolve_label p cur l = Some (p, tgt (pr_labels p) l - j_index cur - 1).
 Proof.
-  intros (Hg & Hlt & Hle). unfold resolve_label. rewrite Hg. simpl drop_behind.
-  destruct (Nat.leb_spec (tgt (pr_labels p) l) (j_index cur)) as [H|_]; [lia|].
-  destruct (Nat.ltb_spec 255 (tgt (pr_labels p) l - j_index cur - 1)) as [H|_]; [lia|].
-  rewrite <- Hg. rewrite lab_set_same by (rewrite Hg; discriminate). destruct p; reflexivity.
+  intros (Hg & Hlt & Hle). unfold resolve_label, tgt in *.
+  destruct (lab_get (pr_labels p) l) as [|t rest] eqn:E; [contradiction|]. cbn [hd] in *. cbn [drop_behind].
+  destruct (Nat.leb_spec t (j_index cur)) as [H|_]; [lia|].
+  destruct (Nat.ltb_spec 255 (t - j_index cur - 1)) as [H|_]; [lia|].
+  rewrite <- E. rewrite lab_set_same by (rewrite E; discriminate). destruct p; reflexivity.
 Qed.
 
 Lemma resolve_jump_short p pos cur : nth_error (pr_jumps p) pos = Some cur -> ok_jump (pr_labels p) (pr_ins p) cur ->
@@ -252,45 +254,47 @@ Qed.
 
 (** * resolving one group *)
 Lemma gb_ok : forall nums pre post nx a g L, nums <> [] -> length nums <= 256 ->
-  lab_get L a = [length pre + length nums] -> lab_get L g = [length pre + length nums + 1] ->
+  lab_get L a <> [] -> tgt L a = length pre + length nums -> lab_get L g = [length pre + length nums + 1] ->
   (forall l, nx < l -> l <= nx + (length nums - 1) -> lab_get L l = [length pre + (l - nx)]) ->
   Forall (ok_jump L (pre ++ Jsrc nums ++ post)) (gb_jumps (length pre) nx nums a g).
 Proof.
-  induction nums as [|n r IH]; intros pre post nx a g L Hne Hlen Ha Hg Hl; [contradiction|].
+  induction nums as [|n r IH]; intros pre post nx a g L Hne Hlen Hane Ha Hg Hl; [contradiction|].
   destruct r as [|m r'].
-  - constructor; [|constructor]. cbn [length] in *. unfold ok_jump, ok_side, tgt. cbn [j_index j_true j_false].
-    rewrite Ha, Hg. cbn [hd]. simpl Jsrc. cbn [app]. rewrite nth_error_mid. repeat split; try lia; try (intros [? ?]; lia).
+  - constructor; [|constructor]. cbn [length] in *. unfold ok_jump, ok_side. cbn [j_index j_true j_false].
+    rewrite Ha. unfold tgt. rewrite Hg. cbn [hd]. simpl Jsrc. cbn [app]. rewrite nth_error_mid.
+    repeat split; try lia; try assumption; try discriminate; try (intros [? ?]; lia).
   - change (gb_jumps (length pre) nx (n :: m :: r') a g) with
       ({| j_index := length pre; j_true := a; j_false := S nx |} :: gb_jumps (S (length pre)) (S nx) (m :: r') a g).
     constructor.
-    + unfold ok_jump, ok_side, tgt. cbn [j_index j_true j_false]. rewrite Ha. rewrite (Hl (S nx)) by (cbn [length]; lia).
-      cbn [hd]. simpl Jsrc. cbn [app]. rewrite nth_error_mid. cbn [length] in *. repeat split; try lia; try (intros [? ?]; lia).
+    + unfold ok_jump, ok_side. cbn [j_index j_true j_false]. rewrite Ha. unfold tgt. rewrite (Hl (S nx)) by (cbn [length]; lia).
+      cbn [hd]. simpl Jsrc. cbn [app]. rewrite nth_error_mid. cbn [length] in *.
+      repeat split; try lia; try assumption; try discriminate; try (intros [? ?]; lia).
     + replace (pre ++ Jsrc (n :: m :: r') ++ post) with ((pre ++ [PJeq n 0 0]) ++ Jsrc (m :: r') ++ post)
         by (rewrite <- app_assoc; reflexivity).
       replace (S (length pre)) with (length (pre ++ [PJeq n 0 0])) by (rewrite app_length; cbn [length]; lia).
-      apply IH; try discriminate.
+      apply IH; try discriminate; try assumption.
       * cbn [length] in *. lia.
-      * rewrite Ha. rewrite app_length. cbn [length]. f_equal. lia.
+      * rewrite Ha. rewrite app_length. cbn [length]. lia.
       * rewrite Hg. rewrite app_length. cbn [length]. f_equal. lia.
       * intros l H1 H2. rewrite Hl by (cbn [length] in *; lia). rewrite app_length. cbn [length]. f_equal. lia.
 Qed.
 
 Lemma gb_apply : forall nums pre post nx a g L, nums <> [] ->
-  lab_get L a = [length pre + length nums] -> lab_get L g = [length pre + length nums + 1] ->
+  tgt L a = length pre + length nums -> lab_get L g = [length pre + length nums + 1] ->
   (forall l, nx < l -> l <= nx + (length nums - 1) -> lab_get L l = [length pre + (l - nx)]) ->
   apply_jumps L (gb_jumps (length pre) nx nums a g) (pre ++ Jsrc nums ++ post) = pre ++ gj nums ++ post.
 Proof.
   induction nums as [|n r IH]; intros pre post nx a g L Hne Ha Hg Hl; [contradiction|].
   destruct r as [|m r'].
   - cbn [gb_jumps apply_jumps j_index]. simpl Jsrc. cbn [app]. rewrite nth_error_mid, set_nth_app.
-    unfold resolved, tgt. cbn [j_index j_true j_false]. rewrite Ha, Hg. cbn [hd length gj app].
+    unfold resolved. cbn [j_index j_true j_false]. rewrite Ha. unfold tgt. rewrite Hg. cbn [hd length gj app].
     replace (length pre + 1 - length pre - 1) with 0 by lia. replace (length pre + 1 + 1 - length pre - 1) with 1 by lia. reflexivity.
   - change (gb_jumps (length pre) nx (n :: m :: r') a g) with
       ({| j_index := length pre; j_true := a; j_false := S nx |} :: gb_jumps (S (length pre)) (S nx) (m :: r') a g).
     cbn [apply_jumps j_index]. change (Jsrc (n :: m :: r')) with (PJeq n 0 0 :: Jsrc (m :: r')).
     change ((PJeq n 0 0 :: Jsrc (m :: r')) ++ post) with (PJeq n 0 0 :: Jsrc (m :: r') ++ post).
     rewrite nth_error_mid, set_nth_app.
-    unfold resolved, tgt. cbn [j_index j_true j_false]. rewrite Ha. rewrite (Hl (S nx)) by (cbn [length]; lia). cbn [hd].
+    unfold resolved. cbn [j_index j_true j_false]. rewrite Ha. unfold tgt. rewrite (Hl (S nx)) by (cbn [length]; lia). cbn [hd].
     replace (length pre + length (n :: m :: r') - length pre - 1) with (length (m :: r')) by (cbn [length]; lia).
     replace (length pre + (S nx - nx) - length pre - 1) with 0 by lia.
     change (gj (n :: m :: r')) with (PJeq n (length (m :: r')) 0 :: gj (m :: r')).
@@ -300,7 +304,7 @@ Proof.
     replace (S (length pre)) with (length (pre ++ [x])) by (rewrite app_length; cbn [length]; lia).
     rewrite IH; try discriminate.
     + rewrite <- app_assoc. reflexivity.
-    + rewrite Ha. rewrite app_length. cbn [length]. f_equal. lia.
+    + rewrite Ha. rewrite app_length. cbn [length]. lia.
     + rewrite Hg. rewrite app_length. cbn [length]. f_equal. lia.
     + intros l H1 H2. rewrite Hl by (cbn [length] in *; lia). rewrite app_length. cbn [length]. f_equal. lia.
 Qed.
@@ -327,8 +331,9 @@ Proof.
     unfold gjs, gsrc, gcode. fold nums. change (match nums with [] => [] | _ :: _ => ?x end) with x.
     rewrite <- !app_assoc.
     assert (Hl' : forall l, next + 2 < l -> l <= next + 2 + (length nums - 1) -> lab_get L l = [length pre + (l - (next + 2))]) by exact Hl.
+    assert (Hta : tgt L (next + 1) = length pre + length nums) by (unfold tgt; rewrite Ha; reflexivity).
     split.
-    + apply gb_ok; auto.
+    + apply gb_ok; auto. rewrite Ha. discriminate.
     + apply gb_apply; auto.
 Qed.
 
